@@ -1,6 +1,8 @@
 from .macro_common import MacroCheck
 from ..rtcheck import RuntimeCheck
 from ..gen_runtime import Profile
+from .. import scn
+from ..scn import Pat, seg, term, tup
 
 class Runtime(RuntimeCheck):
     def rule(self):
@@ -10,6 +12,27 @@ class Runtime(RuntimeCheck):
         base = dict(methods=[0, 1, 2, 3, 6, 7], nested_args=True, max_terms=4, max_calls=8, partial_chance=(1, 2), unmentioned_call_chance=(1, 2),
                     resp_weights=[('ret', 5), ('dfl', 4), ('ans', 2), ('unm', 1)])
         return [('dd', Profile(**base), n), ('ddo', Profile(ordered_weight=3, clones=1, **base), n // 2)]
+    def exhaustive(self, tier):
+        # nested delegation: a default body calls a required method whose answer function calls another provided method on the
+        # mock it is handed (helper of a helper); afterwards the original verifies / drops / reports without seeing a live clone
+        out = []
+        k = 0
+        for base in (0, 4):
+            a, b, c, d = base, base + 1, base + 2, base + 3
+            tree = tup([term(a, 'each', Pat(mask=255, chain=[seg('ret5', '-')])), term(b, 'each', Pat(mask=255, chain=[seg(f"ans{10 * (k + 1) + 8}", '-')]))])
+            for calls in ([(d, 7)], [(d, 7), (d, 7)], [(d, 7), (c, 0), (b, 1)], [(c, 7)]):
+                for end in ('verify', 'drop', 'report'):
+                    for route in (False, True):
+                        evs = [scn.build(0, 0, 'strict', tree)]
+                        if route:
+                            evs.append(scn.clone(0, 1))
+                        evs += [scn.call(1 if route and j % 2 else 0, m, x) for j, (m, x) in enumerate(calls)]
+                        if route:
+                            evs.append(scn.drop(1))
+                        evs.append({'verify': scn.verify, 'drop': scn.drop, 'report': scn.report}[end](0))
+                        out.append(scn.scenario(f"nest{k}", evs)); k += 1
+        return [('nested-delegation', ''.join(out))]
+
     def nontrivial(self, name, text, real_lines):
         return any('dflt:' in l for l in real_lines)
 
